@@ -24,7 +24,9 @@ PATTERN = r"^https://sp\.example\.org/"
 PATTERN_ONLY = "https://sp.example.org/not-an-endpoint"   # matches the pattern but is no registered endpoint
 
 IRT = ("match", "unknown", "absent")
-SCD = ("match", "different", "absent", "nodata-then-different", "match-then-different")
+SCD = ("match", "different", "absent", "nodata-then-different", "match-then-different",
+       # a confirmation whose data names no request in front of / between others
+       "no-irt-then-different", "no-irt-then-match-then-different", "different-then-no-irt")
 DEST = ("own", "foreign", "absent", "pattern-only", "own-plus-suffix", "own-prefix", "own-other-case", "own-with-query")
 AUD = ("none", "one-naming", "one-foreign", "two-both-naming", "two-one-foreign", "two-foreign-first", "empty-restriction", "naming-among-several-audiences",
        # one restriction names the SP, another one lists no usable audience at all / a near miss of the entity identifier
@@ -122,7 +124,9 @@ def run_case(case, ctx):
                                            "own-with-query": own_acs + "?x=1"}[case["dest"]])
     scd = d.find(xk.SAML, "SubjectConfirmationData")[0]
     d = d.set_attr(scd, "InResponseTo", {"match": "id-req-1", "different": "id-other-request", "absent": None,
-                                         "nodata-then-different": "id-other-request", "match-then-different": "id-req-1"}[case["scd"]])
+                                         "nodata-then-different": "id-other-request", "match-then-different": "id-req-1",
+                                         "no-irt-then-different": "id-other-request", "no-irt-then-match-then-different": "id-other-request",
+                                         "different-then-no-irt": "id-other-request"}[case["scd"]])
     scd = d.find(xk.SAML, "SubjectConfirmationData")[0]
     d = d.set_attr(scd, "Recipient", {"own": own_acs, "foreign": FOREIGN, "entityid": fed.SP_EID}[case["rec"]])
     if case["scd"] == "nodata-then-different":
@@ -130,6 +134,18 @@ def run_case(case, ctx):
         sc = d.find(xk.SAML, "SubjectConfirmation")[0]
         p0 = d.prefix(sc)
         d = d.insert_before(sc, '<%s:SubjectConfirmation Method="urn:oasis:names:tc:SAML:2.0:cm:bearer"/>' % p0)
+    elif case["scd"] in ("no-irt-then-different", "no-irt-then-match-then-different", "different-then-no-irt"):
+        sc = d.find(xk.SAML, "SubjectConfirmation")[0]
+        this = d.outer(sc).decode("utf-8")
+        noirt = this.replace(' InResponseTo="id-other-request"', "")
+        assert noirt != this
+        match = this.replace('InResponseTo="id-other-request"', 'InResponseTo="id-req-1"')
+        if case["scd"] == "no-irt-then-different":
+            d = d.insert_before(sc, noirt)
+        elif case["scd"] == "no-irt-then-match-then-different":
+            d = d.insert_before(sc, noirt + match)
+        else:
+            d = d.insert_after(sc, noirt)
     elif case["scd"] == "match-then-different":
         sc = d.find(xk.SAML, "SubjectConfirmation")[0]
         d = d.insert_after(sc, d.outer(sc).decode("utf-8").replace('InResponseTo="id-req-1"', 'InResponseTo="id-other-request"'))
